@@ -1,8 +1,8 @@
 CONSTANTS
-  Prog <- P_hb2
+  Prog <- P_hb7
   Mult = 32
-  MaxW = 1
-  GS = 2
+  MaxW = 2
+  GS = 1
   SS = 2
   RingCap = 2
   SpinCheck = 2
